@@ -98,6 +98,13 @@ const CORPUS: &[(&str, &str)] = &[
     ("no-data-count", r#"(module (type (func)) (type (func (param i32)))
         (memory 1) (data (i32.const 0) "x") (data (i32.const 8) "yy") (data (i32.const 16) "zzz")
         (func (export "a") (type 0)) (func (export "b") (type 1) (i32.const 1) (drop) (i32.const 2) (drop)))"#),
+    ("declared-elem-first-and-dead-segments", r#"(module (type (func)) (type (func (param i32)))
+        (memory 1) (table 4 funcref)
+        (func $f (type 0)) (func $g (type 1) (drop (local.get 0)) (nop) (nop) (nop))
+        (elem declare func $f) (elem (i32.const 0) func $f $g) (elem $p func $f $g $f)
+        (data "dead-passive") (data (i32.const 0) "aa") (data $q "bbb") (data (i32.const 8) "cccc")
+        (export "f" (func $f)) (export "g" (func $g))
+        (func (export "u") (param i32 i32) (drop (ref.func $f)) (table.init $p (i32.const 0) (i32.const 0) (i32.const 1)) (memory.init $q (i32.const 0) (i32.const 0) (i32.const 1))))"#),
     ("duplicate-types", r#"(module (type $a (func (param i32))) (type $b (func (param i32))) (type $c (func (param i32 i32)))
         (func (export "f") (type $b) (drop (local.get 0))) (func (export "g") (type $c) (drop (local.get 0)) (drop (local.get 1)) (nop) (nop)))"#),
 ];
